@@ -54,7 +54,9 @@ func InitRandom(rg *VP8Random, dithering float32) {
 func RandomBits2(rg *VP8Random, numBits, amp int) int {
 	diff := int(rg.tab[rg.index1]) - int(rg.tab[rg.index2])
 	if diff < 0 {
-		diff += 1 << 31
+		// Written as int32 arithmetic: the untyped constant 1<<31 does not
+		// fit a 32-bit int, which broke every 32-bit GOARCH build.
+		diff = int(int32(uint32(diff) + (1 << 31)))
 	}
 	rg.tab[rg.index1] = uint32(diff)
 	rg.index1++
